@@ -220,6 +220,10 @@ pub fn run(ctx: &Ctx) -> i32 {
         let e2e = crate::props::net::NetEngine { prop: "C15" };
         total.merge(run_generated(ctx, &e2e, "netsim-idle-bound", || crate::props::net::ordered(crate::props::net::c15_e2e_strategy(8)), ctx.cases(6_000, 300_000), 300));
     }
+    if d.prop == "C15" || d.prop == "C06" || d.prop == "C05" || d.prop == "C02" {
+        // hundreds of other origins pass through the pool in the middle of the traffic to a few origins
+        total.merge(run_generated(ctx, &engine, "many-origins-mid-traffic", move || many_origins_mid_strategy(40), ctx.cases(400, 24_000), 300));
+    }
     if d.prop == "C06" {
         total.merge(run_generated(ctx, &engine, "near-miss-origins", move || near_origins_strategy(d.profile, max_ops), ctx.cases(60_000, 1_500_000), 2000));
         total.merge(run_generated(ctx, &engine, "many-origins", move || many_origins_strategy(40), ctx.cases(240, 20_000), 300));
